@@ -140,11 +140,7 @@ func (s *g) str(d int) *Node {
 
 func (s *g) boolean(d int) *Node {
 	if d <= 1 {
-		// leaves of boolean type: the bool column, or a comparison of leaves (depth 1 counts the comparison)
-		if s.pick("boolleaf", 4) == 0 {
-			return col("f", "b")
-		}
-		return s.cmp(1)
+		return col("f", "b")
 	}
 	switch x := s.pick("boolprod", 20); {
 	case x < 6:
@@ -184,6 +180,9 @@ func (s *g) strLeafAnyCol() *Node {
 }
 
 func (s *g) cmp(d int) *Node {
+	if d < 2 {
+		d = 2
+	}
 	op := s.oneOf("cmpop", cmpOps)
 	if s.pick("cmpkind", 3) == 0 {
 		return bin("cmp", op, "b", s.str(d-1), s.str(d-1))
@@ -307,9 +306,15 @@ func (s *g) arg(code, xk string, d int) *Node {
 	case "x":
 		return s.typed(xk, d)
 	case "p":
-		return call("abs", "n", s.num(d))
+		if d < 2 {
+			return numLit(s.oneOf("plit", []string{"0", "1", "4", "2.5", "100"}))
+		}
+		return call("abs", "n", s.num(d-1))
 	case "q":
-		return bin("ari", "+", "n", call("abs", "n", s.num(d)), numLit("1"))
+		if d < 3 {
+			return numLit(s.oneOf("qlit", []string{"1", "2", "10", "2.5", "100"}))
+		}
+		return bin("ari", "+", "n", call("abs", "n", s.num(d-2)), numLit("1"))
 	case "k":
 		return numLit(s.oneOf("k", smallK))
 	case "i":
